@@ -51,7 +51,7 @@ CLAIMS = {
         'design_ref': 'DESIGN.md section 5, C17',
     },
     'C02': {
-        'text': "Lean theorems C02.lines_join (splitting never loses, duplicates or reorders characters: the pieces concatenate to the value, for every positive budget, quote, str/bytes value and pattern), C02.lines_nonempty (no empty piece), termination of the splitter loop (the termination_by clause of PyStr.go, whose progress facts are carried as proof arguments), C02.budget_positive (the 10-column floor), C02.quote_is_quote. The model of repr, escape_str_for_quote (repr + the two replace chains, literally), re.split and the loop is tied to /repo by calling str_to_lines / escape_str_for_quote / determine_quote_strategy directly on every str and bytes over an 8-letter adversarial alphabet up to length 4 (thorough 5) x max_len 1..12 x both quotes, and by running pretty_str's contextual document through layout_smart in prefix/nest contexts x 4 strategies x widths; the literal-evaluates-back oracle runs on every implementation output.",
+        'text': "Lean theorems C02.lines_join (splitting never loses, duplicates or reorders characters: the pieces concatenate to the value, for every positive budget, quote, str/bytes value and pattern), C02.lines_nonempty (no empty piece), termination of the splitter loop (the termination_by clause of PyStr.go, whose progress facts are carried as proof arguments), C02.budget_positive (the 10-column floor), C02.quote_is_quote, C02.escape_is_repr (repr + the two replace chains = repr's escaping with the forced quote), C02.unescape_escape (the escaped body decoded as a Python literal is the value, for every str/bytes value and either quote) and C02.pieces_decode. The spec decoder is validated against CPython's eval on every implementation output and on adversarial literal bodies. The model of repr, escape_str_for_quote (repr + the two replace chains, literally), re.split and the loop is tied to /repo by calling str_to_lines / escape_str_for_quote / determine_quote_strategy directly on every str and bytes over an 8-letter adversarial alphabet up to length 4 (thorough 5) x max_len 1..12 x both quotes, and by running pretty_str's contextual document through layout_smart in prefix/nest contexts x 4 strategies x widths; the literal-evaluates-back oracle runs on every implementation output.",
         'note': "the escape/unescape round trip is checked by the oracle (eval of every printed literal), not yet by a theorem; character classification bits are inputs to the model",
         'technique': 'Lean 4 proof (loop invariants as dependent arguments; join/non-empty lemmas) + differential correspondence + eval oracle',
         'design_ref': 'DESIGN.md section 5, C02',
